@@ -691,7 +691,7 @@ fn pre_release<'s>(input: &mut &'s str) -> PResult<Vec<Identifier>, SemverParseE
 
 fn identifier<'s>(input: &mut &'s str) -> PResult<Identifier, SemverParseError<&'s str>> {
     Parser::map(
-        take_while(1.., |x: char| AsChar::is_alphanum(x as u8) || x == '-'),
+        take_while(1.., |x: char| AsChar::is_alphanum(x) || x == '-'),
         |s: &str| {
             str::parse::<u64>(s)
                 .map(Identifier::Numeric)
